@@ -238,7 +238,7 @@ func RunParent(id, tier string) int {
 			cmd := exec.Command(self, "worker", id, tier, fmt.Sprint(i), fmt.Sprint(n), out)
 			cmd.Stderr = os.Stderr
 			cmd.Stdout = os.Stderr
-			cmd.Env = append(os.Environ(), "GOMAXPROCS=2")
+			cmd.Env = append(os.Environ(), "GOMAXPROCS=1", "GOGC=400")
 			if ck.Serial {
 				cmd.Env = os.Environ()
 			}
